@@ -492,13 +492,19 @@ func (w *World) Build(s Spec) (b Built, err error) {
 		ids := map[int]bool{}
 		qcs := map[hotstuff.ID]hotstuff.QuorumCert{}
 		allQCValid := true
+		// the certificate holds ONE certificate per id: a specification that lists an id twice describes the map after the
+		// last assignment (the ground truth must be about the certificate that is built, not about overwritten entries)
+		eff := map[int]int{}
 		for _, me := range s.Map {
 			p := ((me.QC % PoolSize) + PoolSize) % PoolSize
 			qcs[hotstuff.ID(me.ID)] = w.Pool[p]
 			ids[me.ID] = true
+			eff[me.ID] = p
+		}
+		for id, p := range eff {
 			if w.PoolValid(p) {
 				// only QCs attested by replicas that really signed their timeout message count
-				if validSet[me.ID] && int64(PoolBlockView[p]) > b.BestValidView {
+				if validSet[id] && int64(PoolBlockView[p]) > b.BestValidView {
 					b.BestValidView = int64(PoolBlockView[p])
 				}
 			} else {
